@@ -19,6 +19,10 @@ DEC = z3.Function('fmt.Dec', z3.IntSort(), z3.StringSort())
 PAD9 = z3.Function('fmt.Pad9', z3.IntSort(), z3.StringSort())
 FRAC = z3.Function('fmt.Frac', z3.IntSort(), z3.IntSort(), z3.StringSort())
 FRACD = z3.Function('fmt.FracDigits', z3.IntSort(), z3.IntSort(), z3.StringSort())
+# digit mode (opts['dec_tokens'] == 'digits'): a numeral is a concrete-length run of one-character tokens,
+# each the decimal digit of a fresh integer 0..9 tied to the number by  x = sum d_i * 10^i .  Every string
+# operation then works position by position, whatever format or cutset the code uses.
+DIGIT = z3.Function('fmt.Digit', z3.IntSort(), z3.StringSort())
 
 
 def dec(ctx, x):
@@ -48,6 +52,8 @@ def tokens(t):
             out.extend(('c', ch) for ch in z3_unescape(p.as_string()))
         elif z3.is_app(p) and p.decl().name() == 'fmt.Dec':
             out.append(('dec', p.arg(0)))
+        elif z3.is_app(p) and p.decl().name() == 'fmt.Digit':
+            out.append(('dg', p.arg(0)))
         elif z3.is_app(p) and p.decl().name() == 'fmt.Pad9':
             out.append(('pad9', p.arg(0)))
         elif z3.is_app(p) and p.decl().name() == 'fmt.Frac':
@@ -70,6 +76,8 @@ def untokens(ctx, atoms):
             cur = ''
         if a[0] == 'dec':
             parts.append(dec(ctx, a[1]))
+        elif a[0] == 'dg':
+            parts.append(DIGIT(a[1]))
         elif a[0] == 'pad9':
             parts.append(pad9(ctx, a[1]))
         elif a[0] == 'frac':
@@ -86,7 +94,65 @@ def untokens(ctx, atoms):
 
 
 def has_tokens(t):
-    return is_sym(t) and any(a[0] in ('dec', 'pad9', 'frac', 'fracd') for a in tokens(t))
+    return is_sym(t) and any(a[0] in ('dec', 'pad9', 'frac', 'fracd', 'dg') for a in tokens(t))
+
+
+def digit_run(ctx, x, width=None):
+    """Atoms of fmt's %d / %0<width>d of the integer term x: case split on the number of digits."""
+    from .. import core
+    x = zint(x)
+    if ctx.branch(x < 0):
+        if width is not None:
+            raise Inconclusive('zero-padded negative numeral')
+        return [('c', '-')] + digit_run(ctx, -x)
+    b = core.bounds_of(x)
+    maxd = len(str(b[1])) if b is not None and b[1] >= 0 else 20
+    maxd = min(maxd, 20)
+    n = None
+    lo = width if width is not None else 1
+    for k in range(lo, maxd):
+        if ctx.branch(x < 10 ** k):
+            n = k
+            break
+    if n is None:
+        n = max(maxd, lo)
+    ds = []
+    for i in range(n):
+        d = ctx.fresh_int('digit', 'int')
+        core.set_bounds(d, 0, 9)
+        ctx.add_inv(z3.And(d >= 0, d <= 9))
+        ds.append(d)
+    ctx.add_inv(x == z3.Sum([ds[i] * (10 ** i) for i in range(n)]) if n > 1 else x == ds[0])
+    if n > lo or (width is None and n > 1):
+        ctx.add_inv(ds[n - 1] >= 1)
+    return [('dg', d) for d in reversed(ds)]
+
+
+def sprintf_digits(I, fmt, args):
+    ctx = I.ctx
+    parts = base._parse_format(fmt)
+    if parts is None:
+        return None
+    atoms, ai = [], 0
+    for kind, p in parts:
+        if kind == 'lit':
+            atoms.extend(('c', ch) for ch in p)
+            continue
+        a = args[ai] if ai < len(args) else None
+        ai += 1
+        val = ctx.force(a.val) if isinstance(a, Iface) else a
+        m = re.fullmatch(r'(0(\d+))?d', p)
+        if m and isinstance(val, int) and not isinstance(val, bool):
+            atoms.extend(('c', ch) for ch in (('%' + p) % val))
+        elif m and is_sym(val) and z3.is_int(val):
+            atoms.extend(digit_run(ctx, val, int(m.group(2)) if m.group(2) else None))
+        elif p == 's' and isinstance(val, str):
+            atoms.extend(('c', ch) for ch in val)
+        elif p == 's' and is_sym(val) and z3.is_string(val):
+            atoms.extend(tokens(val))
+        else:
+            return None
+    return untokens(ctx, atoms)
 
 
 # ---- fmt: produce tokens
@@ -96,6 +162,11 @@ _orig_sprintf = base.sprintf
 
 def sprintf_tokens(I, fmt, args):
     ctx = I.ctx
+    if ctx.opts.get('dec_tokens') == 'digits' and isinstance(fmt, str):
+        r = sprintf_digits(I, fmt, args)
+        if r is not None:
+            return r
+        return _orig_sprintf(I, fmt, args)
     if ctx.opts.get('dec_tokens') and isinstance(fmt, str):
         parts = base._parse_format(fmt)
         if parts is not None:
@@ -147,9 +218,101 @@ base.sprintf = sprintf_tokens
 _orig_trimright = STUBS['strings.TrimRight']
 
 
+def _trim_atoms(ctx, at, cut, right):
+    """Drop atoms from one end while they are in the cutset; a digit atom forks on membership."""
+    cd = sorted(int(ch) for ch in set(cut) if ch.isdigit())
+    at = list(at)
+    while at:
+        a = at[-1] if right else at[0]
+        if a[0] == 'c':
+            if a[1] not in cut:
+                break
+        elif a[0] == 'dg':
+            if not cd or not ctx.branch(z3.Or(*[a[1] == k for k in cd])):
+                break
+        else:
+            raise Inconclusive('trim over an opaque string part')
+        if right:
+            at.pop()
+        else:
+            at.pop(0)
+    return at
+
+
+def _digit_atoms(s):
+    if not is_sym(s):
+        return None
+    at = tokens(s)
+    if any(a[0] == 'dg' for a in at) and all(a[0] in ('c', 'dg') for a in at):
+        return at
+    return None
+
+
+def _trim_digits(name):
+    orig = STUBS['strings.' + name]
+
+    def f(I, args, ins):
+        s, cut = args
+        at = _digit_atoms(s)
+        if at is not None and isinstance(cut, str):
+            if name in ('TrimRight', 'Trim'):
+                at = _trim_atoms(I.ctx, at, cut, True)
+            if name in ('TrimLeft', 'Trim'):
+                at = _trim_atoms(I.ctx, at, cut, False)
+            return untokens(I.ctx, at)
+        return orig(I, args, ins)
+    return f
+
+
+for _n in ('TrimLeft', 'Trim'):
+    STUBS['strings.' + _n] = _trim_digits(_n)
+
+
+def _affix_digits(name):
+    orig = STUBS.get('strings.' + name)
+
+    def f(I, args, ins):
+        s, x = args
+        at = _digit_atoms(s)
+        if at is not None and isinstance(x, str):
+            ctx = I.ctx
+            right = name in ('TrimSuffix', 'HasSuffix')
+            seg = at[len(at) - len(x):] if right else at[:len(x)]
+            ok = len(x) <= len(at)
+            conds = []
+            if ok:
+                for a, ch in zip(seg, x):
+                    if a[0] == 'c':
+                        if a[1] != ch:
+                            ok = False
+                            break
+                    elif ch.isdigit():
+                        conds.append(a[1] == int(ch))
+                    else:
+                        ok = False
+                        break
+            hit = ok and (not conds or ctx.branch(z3.And(*conds)))
+            if name.startswith('Has'):
+                return bool(hit)
+            if not hit or not x:
+                return s
+            return untokens(ctx, at[:len(at) - len(x)] if right else at[len(x):])
+        if orig is None:
+            raise Inconclusive('strings.%s symbolic' % name)
+        return orig(I, args, ins)
+    return f
+
+
+for _n in ('TrimSuffix', 'TrimPrefix', 'HasSuffix', 'HasPrefix'):
+    STUBS['strings.' + _n] = _affix_digits(_n)
+
+
 def trimright_tokens(I, args, ins):
     ctx = I.ctx
     s, cut = args
+    at = _digit_atoms(s)
+    if at is not None and isinstance(cut, str):
+        return untokens(ctx, _trim_atoms(ctx, at, cut, True))
     if is_sym(s) and cut == '0':
         at = tokens(s)
         if len(at) == 1 and at[0][0] == 'pad9':
@@ -172,6 +335,12 @@ _orig_cut = STUBS['strings.Cut']
 def cut_tokens(I, args, ins):
     ctx = I.ctx
     s, sep = args
+    at = _digit_atoms(s)
+    if at is not None and isinstance(sep, str) and len(sep) == 1 and not sep.isdigit():
+        for i, a in enumerate(at):
+            if a[0] == 'c' and a[1] == sep:
+                return TupleV((untokens(ctx, at[:i]), untokens(ctx, at[i + 1:]), True))
+        return TupleV((s, '', False))
     if is_sym(s) and sep == '.' and has_tokens(s):
         at = tokens(s)
         for i, a in enumerate(at):
@@ -198,6 +367,25 @@ _orig_atoi = STUBS['strconv.Atoi']
 def atoi_tokens(I, args, ins):
     ctx = I.ctx
     s = args[0]
+    at = _digit_atoms(s)
+    if at is not None:
+        from .. import core
+        neg = False
+        if at[0][0] == 'c' and at[0][1] in '+-':
+            neg = at[0][1] == '-'
+            at = at[1:]
+        if not at or any(a[0] == 'c' and not a[1].isdigit() for a in at):
+            return TupleV((0, ctx.new_error('atoi', msg='invalid syntax')))
+        n = len(at)
+        val = z3.Sum([(zint(int(a[1])) if a[0] == 'c' else a[1]) * (10 ** (n - 1 - i)) for i, a in enumerate(at)]) if n > 1 else (zint(int(at[0][1])) if at[0][0] == 'c' else at[0][1])
+        if n >= 19 and not ctx.branch(val < (1 << 63)):
+            return TupleV((0, ctx.new_error('atoi', msg='value out of range')))
+        val = z3.simplify(val) if n > 1 else val
+        core.set_bounds(val, 0, min(10 ** n - 1, (1 << 63) - 1))
+        if neg:
+            val = -val
+            core.set_bounds(val, -min(10 ** n - 1, (1 << 63) - 1), 0)
+        return TupleV((val, None))
     if is_sym(s) and has_tokens(s):
         at = tokens(s)
         if len(at) == 1 and at[0][0] == 'dec':
@@ -228,7 +416,25 @@ def parse_float(I, args, ins):
             return TupleV((0.0, ctx.new_error('parsefloat', msg='invalid syntax')))
     at = tokens(s)
     real = None
-    if len(at) >= 1 and at[0][0] == 'dec':
+    da = _digit_atoms(s)
+    if da is not None:
+        txt = ''.join(a[1] if a[0] == 'c' else '7' for a in da)
+        if not re.fullmatch(r'[+-]?(\d+\.?\d*|\.\d+)', txt):
+            return TupleV((0.0, ctx.new_error('parsefloat', msg='invalid syntax')))
+        neg = txt[0] == '-'
+        if txt[0] in '+-':
+            da = da[1:]
+        dot = next((i for i, a in enumerate(da) if a[0] == 'c' and a[1] == '.'), len(da))
+        real = z3.RealVal(0)
+        for i, a in enumerate(da):
+            if i == dot:
+                continue
+            dv = z3.ToReal(a[1]) if a[0] == 'dg' else z3.RealVal(int(a[1]))
+            e = (dot - 1 - i) if i < dot else (dot - i)
+            real = real + (dv * z3.RealVal(10 ** e) if e >= 0 else dv / z3.RealVal(10 ** (-e)))
+        if neg:
+            real = -real
+    elif len(at) >= 1 and at[0][0] == 'dec':
         real = z3.ToReal(at[0][1])
         rest = at[1:]
         if not rest:
@@ -252,7 +458,7 @@ def _project(at):
         if a[0] == 'c':
             chars.append(a[1])
             owner.append((i, None))
-        elif a[0] in ('dec', 'fracd'):
+        elif a[0] in ('dec', 'fracd', 'dg'):
             chars.append('7')
             owner.append((i, 'all'))
         elif a[0] in ('frac', 'pad9'):
@@ -313,11 +519,29 @@ base.REGEXP_CONTRACTS[r'^(-?)P(?:(\d+)Y)?(?:(\d+)M)?(?:(\d+)D)?(?:T(.+))?$'] = d
 base.REGEXP_CONTRACTS[r'^(?:(\d+)H)?(?:(\d+)M)?(?:(\d+(?:\.\d+)?)S)?$'] = duration_regexp
 
 
+def _digit_uniform(pat):
+    """A pattern that cannot tell one decimal digit from another (no digit literals or digit ranges outside
+    \\d and counted repetitions): on a string of literal characters and one-character digit tokens it matches
+    exactly as on the projection that writes 7 for every digit."""
+    rest = re.sub(r'\\[dDwWsSbB]|\{\d+(,\d*)?\}', '', pat)
+    rest = re.sub(r'\\.', '', rest)
+    return not re.search(r'[0-9]', rest) and not re.search(r'\[[^\]]*[!-/:-~]-[!-~]', rest) and '[^' not in rest
+
+
+def _digit_regexp_fallback(pat, s):
+    if _digit_atoms(s) is not None and _digit_uniform(pat):
+        return duration_regexp
+    return None
+
+
+base.REGEXP_FALLBACKS.append(_digit_regexp_fallback)
+
+
 def token_length(t):
     """Concrete length of a string term made of literal text and fixed-width tokens, else None."""
     n = 0
     for a in tokens(t):
-        if a[0] == 'c':
+        if a[0] in ('c', 'dg'):
             n += 1
         elif a[0] == 'pad9':
             n += 10
@@ -331,7 +555,7 @@ def token_length(t):
 
 
 def token_nonempty(t):
-    return any(a[0] in ('c', 'dec', 'pad9', 'frac', 'fracd') for a in tokens(t))
+    return any(a[0] in ('c', 'dec', 'pad9', 'frac', 'fracd', 'dg') for a in tokens(t))
 
 
 from .. import core as _core
